@@ -36,6 +36,9 @@ def check(run):
     run.attempt(typelevels, run, p)
     run.attempt(rowsafter, run, p, cd)
     run.attempt(poslookup, run, p)
+    from .c10 import kindflag
+    run.attempt(kindflag, run, p, 'C05-KINDFLAG')
+    run.rules['C05-KINDFLAG'] += ' (a DataFrame assertion that takes the regeneration arm returns without comparing)'
     nocache_rule(run, 'C05-NOCACHE', p, ['tdda.referencetest.checkpandas', 'tdda.referencetest.basecomparison'],
                  'frames handed to a comparison are never memoised: no caching decorator and no class-level container used as a cache in the '
                  'comparison modules (check_dataframe sorts its inputs in place, so a shared cached frame would change under later checks)')
